@@ -21,7 +21,7 @@ EXPLANATION = (
     'fed only by the task that drains the credited queue, and that queue is filled only inside the credited loop (plus '
     'the single completion marker); the credit frames cannot overtake the request they belong to (shared with C05.a). '
     'Not decided: liveness (every element eventually delivered) and frame counts at a moment in time.')
-EXPLANATION_ADDED = ("(d) credit is really forwarded: REQUEST_N / initial request-n reach the producer's request() and request(n) puts a REQUEST_N frame (handler reactions); (e) the hand-offs of the library's stream source exist and lose nothing (request -> credit queue and feeder, batch -> delivery queue, delivery -> subscriber, completion marker); the awaitable adapter passes limit_rate as initial request-n; subscribers count every element once, compare the count with the limit they were built with and restart it with every batch; REQUEST_N is never held by the lease gate (C14.f) nor inserted at the head (C05.b).")
+EXPLANATION_ADDED = ("(d) credit is really forwarded: REQUEST_N / initial request-n reach the producer's request() and request(n) puts a REQUEST_N frame (handler reactions); (e) the hand-offs of the library's stream source exist and lose nothing (request -> credit queue and feeder, batch -> delivery queue, delivery -> subscriber, completion marker); the awaitable adapter passes limit_rate as initial request-n and binds it (positionally or by keyword, resolved against the constructor) to the collector field that on_next uses as refill size, leaving the cut-off field None; subscribers count every element once, compare the count with the limit they were built with and restart it with every batch; REQUEST_N is never held by the lease gate (C14.f) nor inserted at the head (C05.b).")
 EXPLANATION = EXPLANATION.replace(' Not decided', ' ' + EXPLANATION_ADDED + ' Not decided', 1) \
     if ' Not decided' in EXPLANATION else EXPLANATION + ' ' + EXPLANATION_ADDED
 ASSUMPTIONS = COMMON_ASSUMPTIONS
@@ -473,6 +473,65 @@ def rule_c(ctx):
             'an element taken from the queue can be delivered more than once')
 
 
+def _ctor_fields(new_event):
+    """field -> term for the `self.<field> = <parameter>` stores of the constructor, with the parameters bound from
+    the construction site (positional, keyword, defaults)."""
+    cls = new_event.data['cls']
+    init = cls.lookup('__init__')
+    if init is None:
+        return {}
+    a = init.node.args
+    names = [x.arg for x in a.args][1:]
+    defaults = dict(zip(names[len(names) - len(a.defaults):], a.defaults)) if a.defaults else {}
+    binding = {}
+    for name, v in zip(names, new_event.data.get('args') or []):
+        binding[name] = strip_epoch(v.term)
+    for k, v in (new_event.data.get('kwargs') or {}).items():
+        binding[k] = strip_epoch(v.term)
+    out = {}
+    for n in walk_local(init.node):
+        if isinstance(n, ast.Assign) and len(n.targets) == 1 and isinstance(n.targets[0], ast.Attribute) and \
+                isinstance(n.targets[0].value, ast.Name) and n.targets[0].value.id == 'self' and \
+                isinstance(n.value, ast.Name) and n.value.id in names:
+            pname = n.value.id
+            if pname in binding:
+                out[n.targets[0].attr] = binding[pname]
+            elif pname in defaults:
+                d = defaults[pname]
+                if isinstance(d, ast.Constant):
+                    out[n.targets[0].attr] = ('const', d.value)
+                else:
+                    out[n.targets[0].attr] = ('default', ast.unparse(d))
+    return out
+
+
+def _collector_roles(cls):
+    """(refill field, cut-off field) of a collecting subscriber, by what on_next does with them: the refill field is
+    the argument of subscription.request(), the cut-off field is compared on the way to subscription.cancel()."""
+    on_next = cls.lookup('on_next')
+    if on_next is None:
+        return None, None
+    refill = cutoff = None
+    init = cls.lookup('__init__')
+    pnames = {x.arg for x in init.node.args.args} if init is not None else set()
+    param_fields = {n.targets[0].attr for n in (walk_local(init.node) if init is not None else ())
+                    if isinstance(n, ast.Assign) and len(n.targets) == 1 and isinstance(n.targets[0], ast.Attribute)
+                    and isinstance(n.value, ast.Name) and n.value.id in pnames}
+    for n in walk_local(on_next.node):
+        if isinstance(n, ast.Call) and isinstance(n.func, ast.Attribute) and n.func.attr == 'request' and n.args and \
+                isinstance(n.args[0], ast.Attribute) and ast.unparse(n.args[0].value) == 'self':
+            refill = n.args[0].attr
+        if isinstance(n, ast.If) and any(isinstance(c, ast.Call) and isinstance(c.func, ast.Attribute) and
+                                         c.func.attr == 'cancel' for st in n.body for c in ast.walk(st)):
+            for x in ast.walk(n.test):
+                if isinstance(x, ast.Compare) and not isinstance(x.ops[0], (ast.Is, ast.IsNot)):
+                    for side in [x.left] + x.comparators:
+                        if isinstance(side, ast.Attribute) and ast.unparse(side.value) == 'self' and \
+                                side.attr in param_fields:
+                            cutoff = side.attr
+    return refill, cutoff
+
+
 def rule_g(ctx):
     """The awaitable adapter: the limit_rate the application passes is the initial request-n of the request it issues,
     and the refill size of the collector it subscribes."""
@@ -509,8 +568,13 @@ def rule_g(ctx):
                     inits[0].seq > subs[0].seq:
                 ok, why = False, 'initial_request_n(limit_rate) is not applied to this request before it is subscribed'
             news = [e for e in p.events if e.kind == 'new' and e.data['cls'].name == 'CollectorSubscriber']
-            if len(news) != 1 or not news[0].data.get('args') or strip_epoch(news[0].data['args'][0].term) != lim:
-                ok, why = False, 'the collector is not created with the application\'s limit_rate'
+            bound = _ctor_fields(news[0]) if len(news) == 1 else {}
+            refill, cutoff = _collector_roles(news[0].data['cls']) if len(news) == 1 else (None, None)
+            if len(news) != 1 or refill is None or bound.get(refill) != lim:
+                ok, why = False, 'the collector\'s refill size (%s) is not the application\'s limit_rate' % refill
+            elif cutoff is not None and bound.get(cutoff, ('const', None)) != ('const', None):
+                ok, why = False, ('the collector is created with %s as its element cut-off (%s): it cancels the '
+                                  'stream after that many elements' % (fmt_term(bound[cutoff]), cutoff))
             elif [strip_epoch(a.term) for a in subs[0].data['args']] != [news[0].data['value'].term]:
                 ok, why = False, 'what is subscribed is not the collector created for this call'
         rep.add('C06.a', 'AwaitableRSocket.%s / limit_rate becomes the initial request-n' % meth, f, ok and n > 0,
